@@ -40,7 +40,10 @@ Inductive case :=
 | NUnpackFrom (buf : bytes) (off : nat) (r : result (name * nat))
 | NUnpackC (buf : bytes) (off : nat) (r : result (name * nat))
 | Decomp (buf : bytes) (off end_data : nat) (r : result bytes)
-| Compr (t : N) (b : bool).
+| Compr (t : N) (b : bool)
+(* one process, in this order: domain_names.pack of each name, then packed/unpack of each message;
+   names are case variants of each other.  The model has no state to carry. *)
+| Hist (packs : list (name * result bytes)) (msgs : list (message * result bytes * result message)).
 
 Definition check_case (c : case) : bool :=
   match c with
@@ -60,4 +63,11 @@ Definition check_case (c : case) : bool :=
   | NUnpackC buf off r => result_eqb name_nat_eqb (fst (unpack_fwc buf off [])) r
   | Decomp buf off e r => result_eqb bytes_eqb (fst (decompress_from_record_data buf off e [])) r
   | Compr t b => Bool.eqb (record_data_can_have_compression t) b
+  | Hist packs msgs =>
+      list_eqb (result_eqb bytes_eqb) (pack_history (map fst packs)) (map snd packs)
+      && forallb (fun x => match x with (m, p, back) =>
+           match packed m with
+           | Ok b => result_eqb bytes_eqb (Ok b) p && result_eqb msg_eqb (DnsMessage.unpack b) back
+           | e => result_eqb bytes_eqb e p
+           end end) msgs
   end.
